@@ -28,7 +28,7 @@ const F_MORE: u32 = libc::IORING_CQE_F_MORE;
 const F_NOTIF: u32 = libc::IORING_CQE_F_NOTIF;
 const OPCODE: u8 = 77;
 
-static mut RES_DROPS: u32 = 0;
+static mut RES_DROPS: crate::verif_stubs::V<u32> = crate::verif_stubs::V::new(0);
 
 /// Resources of the harness operation: a heap buffer the "kernel" is given
 /// the address of, and a drop counter.
@@ -38,12 +38,12 @@ struct Res {
 
 impl Drop for Res {
     fn drop(&mut self) {
-        unsafe { RES_DROPS += 1 };
+        unsafe { RES_DROPS.v += 1 };
     }
 }
 
 fn res_drops() -> u32 {
-    unsafe { RES_DROPS }
+    unsafe { RES_DROPS.v }
 }
 
 fn fill(_t: &SubmissionQueue, r: &mut Res, a: &mut u32, s: &mut Submission) {
@@ -72,7 +72,7 @@ fn fallback_next(_t: &SubmissionQueue, _r: &Res, _a: &mut u32, e: std::io::Error
 
 /// Ring with `free` free submission slots (len 2) and its queue handle.
 fn ring(free: u32) -> SubmissionQueue {
-    unsafe { RES_DROPS = 0 };
+    unsafe { RES_DROPS.v = 0 };
     k::install(k::base_table());
     k::sq_set(0, 2 - free);
     SubmissionQueue(crate::io_uring::sq::verif_c04::submissions_in_place(2, false, false))
